@@ -20,13 +20,19 @@ LEVEL_TEXT = ("Proof (F/P): over the model (key -> (version, bytes); one atomic 
               "manifest history is a legal sequential CAS-register history, that a failed CheckAndPut changes nothing, that among conditional writers "
               "no two winners share an expected version (under versions_distinct) and that n writers with the current version have exactly one winner; "
               "that Get returns exactly the window of the BlobRange for every blob/offset/length with in-range start (and the exact out-of-range behaviour "
-              "of each backend); that Concatenate stores the concatenation. Partial: version freshness is the hypothesis versions_distinct, measured on "
+              "of each backend); that Concatenate stores the concatenation; that a NomsBlockStore whose manifest is a blob updated by CheckAndPut produces, for every "
+              "history of Put/Rebase/Commit steps of any number of clients, exactly the observations of the store with a file manifest (bs_store_same_semantics, at "
+              "manifest.Update granularity; read_then_cap_is_atomic carries the read..CheckAndPut window under versions_distinct). Partial: version freshness is the hypothesis versions_distinct, measured on "
               "every run; atomicity of a step is the backend's lock (modelled, exercised by the concurrent sub-cases); git/remote backends not exercised.")
 LEVEL_NOTE = ("Trusted: Coq kernel, translator (constants only: positiveRange/isAllRange are outside its func grammar — receiver selectors, signed "
               "arithmetic — and are hand-modelled, tied by the correspondence incl. an exhaustive small (offset,length) sweep), Go harness + Python glue "
               "(incl. the reconstruction of the linearisation order of the concurrent group from observed versions). Modelled, not verified: sync.RWMutex, "
               "fslock/flock, rename atomicity, mtime resolution (versions_distinct). LocalBlobstore.Put of the manifest key does not take the file lock: "
-              "the model's atomic steps cover CheckAndPutManifest writers and readers only, which is how NBS uses it.")
+              "the model's atomic steps cover CheckAndPutManifest writers and readers only, which is how NBS uses it. "
+              "NBS sub-model: table files, memtable and conjoin are abstracted (C02's subject); interleavings inside one manifest.Update (read / CheckAndPut / re-read) "
+              "are covered by read_then_cap_is_atomic + failed_cap_changes_nothing, not by a full refinement (A-B-A on contents yields a spurious retry). "
+              "GitBlobstore not exercised: versions are git object ids (content addressed, so versions_distinct is false by design), Put of a non-manifest key is "
+              "idempotent and deferred until the next CheckAndPutManifest, out-of-range offsets are errors in both directions.")
 THEOREMS = ["cap_is_cas", "failed_cap_changes_nothing", "cap_succeeds_iff_expected_is_current", "one_winner_per_expected_version",
             "exactly_one_winner", "range_spec_inmem", "range_spec_local", "range_spec_nonneg", "range_spec_suffix", "spec_slice_is_window",
             "range_out_of_range_inmem", "range_out_of_range_local", "concat_spec", "concat_missing_source_local",
